@@ -16,6 +16,23 @@ ReplaceAllStr(s, p, r) ==        \* left-to-right, non-overlapping occurrences o
     ELSE IF StartsWith(s, p) THEN r \o ReplaceAllStr(SubSeq(s, Len(p) + 1, Len(s)), p, r)
     ELSE <<s[1]>> \o ReplaceAllStr(Tail(s), p, r)
 
+(* ASCII case mapping; any other letter has no backend-independent case mapping (SQLite maps ASCII only) *)
+IsAsciiOrCaseless(c) == c < 128
+UpperC(c) == IF c >= 97 /\ c <= 122 THEN c - 32 ELSE c
+LowerC(c) == IF c >= 65 /\ c <= 90 THEN c + 32 ELSE c
+UpperStr(s) == IF \A i \in DOMAIN s : IsAsciiOrCaseless(s[i]) THEN [i \in DOMAIN s |-> UpperC(s[i])] ELSE UNDEF
+LowerStr(s) == IF \A i \in DOMAIN s : IsAsciiOrCaseless(s[i]) THEN [i \in DOMAIN s |-> LowerC(s[i])] ELSE UNDEF
+(* strip: only blanks are stripped identically everywhere (SQLite TRIM removes spaces, polars all white space) *)
+RECURSIVE StripL(_)
+StripL(s) == IF s # <<>> /\ s[1] = 32 THEN StripL(Tail(s)) ELSE s
+RECURSIVE StripR(_)
+StripR(s) == IF s # <<>> /\ s[Len(s)] = 32 THEN StripR(SubSeq(s, 1, Len(s) - 1)) ELSE s
+IsOtherSpace(c) == c \in {9, 10, 11, 12, 13}
+StripStr(s) == LET r == StripR(StripL(s)) IN
+               IF r # <<>> /\ (IsOtherSpace(r[1]) \/ IsOtherSpace(r[Len(r)])) THEN UNDEF ELSE r
+(* slice(offset, n): 0-based, non-negative arguments only *)
+SliceStr(s, off, n) == IF off < 0 \/ n < 0 THEN UNDEF ELSE SubSeq(s, off + 1, MinI(off + n, Len(s)))
+
 (* decimal text of integers *)
 RECURSIVE NatToStr(_)
 NatToStr(n) == IF n < 10 THEN <<48 + n>> ELSE NatToStr(n \div 10) \o <<48 + (n % 10)>>
